@@ -273,9 +273,14 @@ def _set_member_creation(text, path, node, res):
             base.append(("key", str(step[2])))
         else:
             return
-    member = "n"
-    if any(str(m) == member for m in node):
-        return
+    for member in ("n", "n m", "n.m"):
+        if any(str(m) == member for m in node):
+            continue
+        _set_member_creation_of(text, path, node, res, base, member)
+
+
+def _set_member_creation_of(text, path, node, res, base, member):
+    from yamlpath.exceptions import YAMLPathException
     for sep in (".", "/"):
         for entry in ("set", "get-default"):
             doc, _ = gdocs.load(text)
